@@ -9,6 +9,7 @@ import (
 	"path/filepath"
 	"sync"
 
+	"github.com/go-openapi/analysis/internal/flatten/normalize"
 	"github.com/go-openapi/spec"
 )
 
@@ -50,4 +51,11 @@ func init() {
 			_, _ = f.Write(append(b, '\n'))
 		}
 	}
+}
+
+// VerifRebaseRef and VerifNormalizePath expose the internal $ref rebasing functions to the verification harness.
+func VerifRebaseRef(baseRef, ref string) string { return normalize.RebaseRef(baseRef, ref) }
+
+func VerifNormalizePath(ref, basePath string) string {
+	return normalize.Path(spec.MustCreateRef(ref), basePath)
 }
